@@ -176,12 +176,34 @@ def _rand_call(rng, v):
     return {"steps": steps}
 
 
+def _faulty_subscribe():
+    """ORACLE ONLY (Monitors.v has no failing device calls): the device's subscribe() registers the callback and then raises
+    (ophyd's subscribe(run=True) whose first delivery times out); the plan catches the error.  The registration is on the
+    device, so it has to be removed by unmonitor / close_run / the end of the call like any other."""
+    out = []
+    for chan in ("default", "rb"):
+        mon = ["monitor", "A", "o1", chan, "fault"]
+        u = lambda n: ["update", "o1", n, chan]  # noqa: E731
+        endings = [[], [["unmonitor", "A", "o1"]], [["close", "A"]], [["unmonitor", "A", "o1"], ["close", "A"]], [["raise"]],
+                   [["pause", [u(5)], "resume"], ["close", "A"]], [["pause", [u(5)], "abort"]], [["pause", [u(5)], "stop"]],
+                   [["suspend", [], [u(5)], []], ["close", "A"]], [["suspend", [], [u(5)], []], ["unmonitor", "A", "o1"]],
+                   [["monitor", "A", "o1", chan], ["close", "A"]], [["open", "B"], ["monitor", "B", "o1", chan], ["close", "A"], u(6), ["close", "B"]]]
+        for end in endings:
+            for before in ([], [u(1)]):
+                steps = [["open", "A"], mon] + before + end + [u(7)]
+                if ["raise"] in end:
+                    steps = [["open", "A"], mon] + before + [["raise"]]
+                out.append({"no_model": True, "calls": [{"steps": steps}, {"steps": [u(8), ["open", "A"], ["monitor", "A", "o1", chan], u(9), ["close", "A"], u(10)]}]})
+    return out
+
+
 def cases(rng, tier):
     out = _exhaustive()
     n = 300 if tier == "quick" else 5000
     for _ in range(n):
         v = _V()
         out.append({"calls": [_rand_call(rng, v) for _ in range(rng.choice([1, 1, 2]))]})
+    out += _faulty_subscribe()
     # edge stream: nothing open
     out.append({"calls": [{"steps": [["monitor", "A", "o1"], ["unmonitor", "A", "o1"], ["close", "A"], ["update", "o1", 1]]}]})
     out.append({"calls": [{"steps": [["open", "A"], ["open", "A"], ["monitor", "A", "o1"], ["monitor", "A", "o1"],
@@ -279,6 +301,8 @@ def _class_g(ins):
 
 
 def coq_term(case, obs):
+    if case.get("no_model"):
+        return None               # faulty-subscribe family: judged by the oracle on the real run only
     if obs["errors"]:
         return "false"
     ins = inputs_of(obs)
